@@ -14,6 +14,7 @@ import CfavmlModel.Gen.DriverTable
 import CfavmlModel.Gen.Kernels
 import CfavmlModel.Hand.ThreadPool
 import CfavmlModel.Hand.AlignedBuffer
+import CfavmlModel.Hand.TransposeGlue
 
 namespace Cfavml.Driver
 
@@ -253,6 +254,32 @@ def handle (E : Env) (line : String) : Env × String :=
       | .ok b => (E, s!"ok {toHex b.len} {toHex b.allocatedSize}")
       | .error f => (E, showFault f)
     | _, _ => (E, "bad-request abuf arguments")
+  | ["xpose", bits, cls, w, h, d, r] =>
+    match parseHex bits, parseHex w, parseHex h with
+    | some b, some wv, some hv =>
+      let ty : Option RTy := match cls with
+        | "f32" => some .f32 | "u32" => some .u32 | "f64" => some .f64 | "u64" => some .u64 | "other" => some .other | _ => none
+      match ty with
+      | none => (E, "bad-request element class")
+      | some ty =>
+        let strip (t : String) : Option String := match t.splitOn ":" with | ["m", body] => some body | _ => none
+        match strip d, strip r with
+        | some ds, some rs =>
+          if b == 32 then
+            match parseList 32 ds, parseList 32 rs with
+            | some dv, some rv => (E, outMem (transpose_matrix_b32 E ty wv hv (Slice.ofArray dv) (Slice.ofArray rv)))
+            | _, _ => (E, "bad-request data")
+          else if b == 64 then
+            match parseList 64 ds, parseList 64 rs with
+            | some dv, some rv => (E, outMem (transpose_matrix_b64 E ty wv hv (Slice.ofArray dv) (Slice.ofArray rv)))
+            | _, _ => (E, "bad-request data")
+          else if ty != .other then (E, "bad-request element class for this width")
+          else
+            match parseList b ds, parseList b rs with
+            | some dv, some rv => (E, outMem (transpose_matrix_other E wv hv (Slice.ofArray dv) (Slice.ofArray rv)))
+            | _, _ => (E, "bad-request data")
+        | _, _ => (E, "bad-request slices")
+    | _, _, _ => (E, "bad-request xpose arguments")
   | _ => (E, "bad-request")
 
 partial def loop (h : IO.FS.Stream) (out : IO.FS.Stream) (E : Env) : IO Unit := do
